@@ -11,7 +11,7 @@ from fractions import Fraction as Fr
 from core import *
 
 NEEDS = ["Solver", "SolverProofs", "Corr"]
-GUARDS = ["rows_fit", "frame_ok"]
+GUARDS = ["rows_fit"]
 
 # ---------------------------------------------------------------------------------------------- impl side (worker)
 def _err(e):
@@ -259,7 +259,6 @@ Definition dts_of c := match cdts c with Some d => d | None => cdt c end.
 Definition jax_run (c : tcase) : outcome :=
   let n := rnd (cT c / dts_of c) in
   if (n =? 0) then ErrIndex
-  else if negb fixed_D35 && (n =? 1) && (2 <=? length (ccols c)) then ErrShape
   else Rows (spec_run (lin_f (crhs c)) (sv c) (cT c) (cdt c) (cdts c) (ccut c) (ccols c) (cy0 c) 0).
 Definition implO (c : tcase) : outcome :=
   if isjax c then jax_run c else
@@ -278,7 +277,7 @@ Definition okI (p : tcase * outcome) := agree (implO (fst p)) (snd p).
 Definition okS (p : tcase * outcome) := agree (specO (fst p)) (snd p).
 Definition g_fit (p : tcase * outcome) := rows_fit (cT (fst p)) (cdt (fst p)) (dts_of (fst p)).
 Definition g_mult (p : tcase * outcome) := sampling_multiple (cdt (fst p)) (dts_of (fst p)).
-Definition g_frame (p : tcase * outcome) := negb (isrun (fst p)) || frame_ok (cT (fst p)) (dts_of (fst p)) (length (ccols (fst p))).
+Definition g_frame (p : tcase * outcome) := negb (isrun (fst p)) || frame_ok (cT (fst p)) (dts_of (fst p)).
 """
 
 ERRMAP = {"IndexError": "ErrIndex", "ZeroDivisionError": "ErrZeroDiv", "ValueError": "ErrShape"}
@@ -328,12 +327,14 @@ def known_outcome(r):
     return isinstance(r, dict) and ("rows" in r or r.get("raised") in ERRMAP)
 
 # ---------------------------------------------------------------------------------------------- shrinking
-def fails(ctx, case, tag):
+def fails(ctx, case, tag, strict=False):
     r = run_impl(ctx, "c03", "impl", [case], nworkers=1)[0]
     if not known_outcome(r):
         return True, r
     res = model_compare(ctx, [case], [r], tag)
-    return bool(res[1]) and not res[4], r
+    if strict:      # shrinking must stay inside all guards, otherwise it drifts into a known loud class
+        return bool(res[1]) and not (res[2] or res[3] or res[4]), r
+    return bool(res[1]), r
 
 def shrink(ctx, case):
     best, budget = case, 10
@@ -343,7 +344,7 @@ def shrink(ctx, case):
             return
         budget -= 1
         try:
-            if exact_ok(cand) and fails(ctx, cand, tag)[0]:
+            if exact_ok(cand) and fails(ctx, cand, tag, strict=True)[0]:
                 best = cand
         except Exception:
             pass
@@ -360,15 +361,8 @@ def shrink(ctx, case):
     return best
 
 # ---------------------------------------------------------------------------------------------- check
-def model_switch(name):
-    import re
-    m = re.search(r"^Definition %s : bool := (true|false)\." % name, open(os.path.join(COQ, "theories", "Solver.v")).read(), re.M)
-    return bool(m) and m.group(1) == "true"
-
 def check(ctx):
     pr = proof_gate(ctx, NEEDS)
-    if model_switch("fixed_D35"):
-        ctx.note("model switch fixed_D35 = true: the model is the code with fixes/proposed_fix_C03_D35.diff applied")
     problem = proof_problem(pr)
     n_solve, n_run = (220, 150) if ctx.tier == "quick" else (3000, 2000)
     if problem:
@@ -389,7 +383,11 @@ def check(ctx):
     badS = [i for i in badS if i not in nomult]
     badI_scope = badI
     guard_viol = {}
-    for name, l in zip(GUARDS, (nofit, noframe)):
+    # no stored sample at all (round(T/dts) = 0 with no step either): degenerate request, only model = code is demanded
+    noframe = [i for i in noframe if i not in nofit]
+    out_of_scope += [i for i in noframe if i in badS]
+    badS = [i for i in badS if i not in noframe]
+    for name, l in zip(GUARDS, (nofit,)):
         for i in l:
             if i not in badI:        # attributed to a known finding only when the code fails in exactly the modelled way
                 guard_viol.setdefault(i, []).append(name)
@@ -428,10 +426,10 @@ def check(ctx):
                         "permuted/partial outputs); T is an integer, half-integer or quarter multiple of dt (exercises round-half-even), "
                         "dts a multiple of dt (some not, some below dt), cutoff on / between / outside samples; all data dyadic and bounded so that float64 is exact",
                    samples=[c for c in cases[:400] if nontrivial(c)][:3],
-                   extra=dict(model_switches=dict(fixed_D35=model_switch("fixed_D35")), input_distribution=hist, impl_vs_model_mismatches=len(badI), impl_vs_spec_mismatches=len(badS)),
+                   extra=dict(input_distribution=hist, impl_vs_model_mismatches=len(badI), impl_vs_spec_mismatches=len(badS)),
                    trusted_base=["numpy float64 arithmetic is exact on the generated dyadic data (generator-side bound: every intermediate is a multiple of 2^-E below 2^(50-E)); results are compared as exact rationals",
                                  "pandas label slicing .loc[cutoff:, :] and DataFrame construction are modelled (filter index >= cutoff), tied by the run-level cases"],
-                   assumptions=["T >= 0, dt > 0, dts > 0; the theorems about values hold under the decidable guards rows_fit, frame_ok; "
+                   assumptions=["T >= 0, dt > 0, dts > 0; the theorems about values hold under the decidable guards rows_fit and frame_ok (>= 1 stored sample); "
                                 "outside them the model predicts the error class and the real code is required to raise exactly that",
                                 "IEEE rounding is outside the model: the model computes in Qc",
                                 "theorems are about the default backend's loops; the torch Euler loop (direct calls and run) and the jax Euler/Heun loops (run, autonomous models) are in the correspondence stream only: torch = the same model, jax = spec_rows without the IndexError class; adaptive solvers are not covered by any theorem"])
